@@ -158,6 +158,7 @@ func (c *Ctx) ruleReveal() {
 
 	// ---- LOCK
 	c.ruleLockReentry("R-REVEAL", scope)
+	c.ruleLockPairing("R-REVEAL", scope)
 }
 
 // storeIsShared: the store writes memory that is not a fresh local object of f.
